@@ -68,7 +68,7 @@ fi
 W=$WQ; [ "$TIER" = thorough ] && W=$WT
 rm -f "$EVD/$ID.json"
 cd "$ROOT/harness/props/$PKG"
-# A signal-level crash (SIGSEGV / SIGBUS) whose crashing goroutine has no rueidis frame is a crash of the Go runtime or of
+# A signal-level crash (SIGSEGV / SIGBUS, or an internal CHECK of the race detector's runtime) whose crashing goroutine has no rueidis frame is a crash of the Go runtime or of
 # the harness (seen once: runtime.(*timer).modify under time.AfterFunc inside a synctest bubble), not an observation of
 # rueidis: the run is repeated, at most twice. A crash with a rueidis frame on the crashing goroutine is a violation (below).
 ATTEMPT=0
@@ -76,7 +76,7 @@ while :; do
   rm -f "$EVD/$ID.json"
   GORACE="halt_on_error=0" timeout -s QUIT -k 20 $W "$EXE" -test.run "^Test${ID}\$" -test.count=1 -test.timeout=0 >"$LOG" 2>&1
   RC=$?
-  if [ $RC -ne 0 ] && [ $ATTEMPT -lt 2 ] && head -n 3 "$LOG" | grep -qE '^(SIGSEGV|SIGBUS)' \
+  if [ $RC -ne 0 ] && [ $ATTEMPT -lt 2 ] && head -n 3 "$LOG" | grep -qE '^(SIGSEGV|SIGBUS|ThreadSanitizer: CHECK failed)' \
      && ! awk '/^goroutine [0-9]+ .*\[running/{f=1} f&&/^$/{exit} f' "$LOG" | grep -q 'github.com/redis/rueidis'; then
     ATTEMPT=$((ATTEMPT+1))
     cp "$LOG" "$LOG.runtime-crash-$ATTEMPT"
@@ -109,7 +109,7 @@ if grep -q 'WARNING: DATA RACE' "$LOG" && ! grep -qE '^(panic:|fatal error:)' "$
   fi
 fi
 # the process died or a sanitizer spoke outside an oracle: a crash of the code under test is a violation, with the log as witness
-if head -n 3 "$LOG" | grep -qE '^(SIGSEGV|SIGBUS)' && ! awk '/^goroutine [0-9]+ .*\[running/{f=1} f&&/^$/{exit} f' "$LOG" | grep -q 'github.com/redis/rueidis'; then
+if head -n 3 "$LOG" | grep -qE '^(SIGSEGV|SIGBUS|ThreadSanitizer: CHECK failed)' && ! awk '/^goroutine [0-9]+ .*\[running/{f=1} f&&/^$/{exit} f' "$LOG" | grep -q 'github.com/redis/rueidis'; then
   echo "BROKEN property=$ID the Go runtime / harness crashed outside rueidis in three runs in a row (log $LOG)"; exit 2
 fi
 if grep -qE '^(panic:|fatal error:|WARNING: DATA RACE|SIGSEGV|SIGBUS)|testing: race detected|^unexpected fault address|checkptr' "$LOG"; then
